@@ -21,7 +21,7 @@ pub fn info() -> PropInfo {
 }
 
 pub fn strategy() -> BoxedStrategy<Case> {
-    let cfg = ClaimCfg { full_f64: true, path_safe_names: false, hazard_boost: true, no_top_cnf: true };
+    let cfg = ClaimCfg { full_f64: true, path_safe_names: false, hazard_boost: true, no_top_cnf: true, big: true };
     let salt = vec(select(&b"ABCDEFGHIJKLMNOPQRSTUVWXYZabcdefghijklmnopqrstuvwxyz0123456789-_"[..]), 1..24).prop_map(|v| String::from_utf8(v).unwrap());
     (
         issue_spec_strategy(cfg, HONEST_PATHS, Just(HolderKey::None).boxed()),
@@ -53,5 +53,5 @@ pub fn strategy() -> BoxedStrategy<Case> {
 }
 
 pub fn plan(tier: Tier) -> Plan<Case> {
-    Plan { strategy: strategy(), check, shrink_iters: 2000, decode_bytes: None, cases: match tier { Tier::Quick => 24_000, Tier::Thorough => 1_000_000 } }
+    Plan { strategy: strategy(), check, shrink_iters: 2000, decode_bytes: None, watchdog_secs: 0, cases: match tier { Tier::Quick => 24_000, Tier::Thorough => 1_000_000 } }
 }
